@@ -144,6 +144,7 @@ theorem admits_asdict : ∀ (τ : Ty) (j v : PV), wf τ = true → isJson j = tr
     | floatBool b => exact .floatConv _
   | .str, j, v, _, _, h => by cases h; exact .str _
   | .bool, j, v, _, _, h => by cases h; exact .bool _
+  | .never, j, v, _, _, h => by cases h
   | .listAny, j, v, _, hj, h => by
     cases h; rw [asdict_of_isJson _ hj]; exact .listAny _
   | .tupleAny, j, v, _, hj, h => by
@@ -262,6 +263,7 @@ theorem admits_self : ∀ (τ : Ty) (j v : PV), wf τ = true → isJson j = true
     | floatBool b => exact .floatConv _
   | .str, j, v, _, _, h => by cases h; exact .str _
   | .bool, j, v, _, _, h => by cases h; exact .bool _
+  | .never, j, v, _, _, h => by cases h
   | .listAny, j, v, _, _, h => by cases h; exact .listAny _
   | .tupleAny, j, v, _, _, h => by cases h <;> exact .tupleAnyT _
   | .dictAny, j, v, _, _, h => by cases h; exact .dictAny _
